@@ -547,6 +547,102 @@ def r6_12(ctx):
         ctx.check(n_cfg >= 1, "config-result", f.where(), "a result with a non-empty configuration exists")
 
 
+def _non_identity(tree, is_read, is_local=lambda n: False):
+    """calls that transform the text between a line read and the place where `tree` is used: walks down from the root, through
+    value-preserving wrappers and containers, and stops at crate-local functions (their results are derived values, not the line)"""
+    from ..facts import TRANSPARENT
+    bad = []
+
+    def reaches(n):
+        if n.kind == "call":
+            if is_read(n):
+                return True
+            if is_local(n):
+                return False
+        return any(reaches(k) for k in n.kids)
+
+    def walk(n):
+        if n.kind == "call":
+            if is_read(n) or is_local(n):
+                return
+            m = method_name(n.a)
+            if m in TRANSPARENT or m in ("Try::branch", "Option::unwrap", "Option::expect"):
+                for k in n.kids[:1]:
+                    walk(k)
+                return
+            if reaches(n):
+                bad.append(n)
+            return
+        for k in n.kids:
+            walk(k)
+    walk(tree)
+    return bad
+
+
+def r6_15(ctx):
+    """document lines reach the tokens verbatim: (a) the line source helper returns the `Lines::next` item itself; (b) what the
+    tokenizer stores of a line it read (token fields, pushed tuples) is that line, copied - not trimmed, cut or re-cased. Trailing
+    blanks are part of an expectation, and `> ` (with the blank) is what continues a command."""
+    prog = ctx.prog
+    f = prog.fn("<MarkdownIterator<'_> as Iterator>::next")
+    srcs, helpers = source_calls(prog, f)
+    n = 0
+    # (a) helpers
+    for (crate, path), hb in sorted(helpers.items()):
+        o = Origins(hb)
+        r = o.local(0)
+        alts = r.kids if r.kind == "phi" else [r]
+        for a in alts:
+            a = peel(a)
+            if a.kind == "agg" and a.a[0] == "Option::Some":
+                bad = _non_identity(a.kids[0], lambda x: x.kind == "call" and "Lines<" in x.a and method_name(x.a) == "Iterator::next")
+                n += 1
+                ctx.check(not bad, "source-verbatim:" + hb.npath.split("::")[-1], hb.where(), "%s returns the item of Lines::next unchanged" % hb.npath,
+                          "%s passes the document line through %s before handing it to the tokenizer: every line of the document - also those inside ```scrut "
+                          "blocks, where trailing whitespace is part of the expectation and `> ` continues a command - is altered" % (
+                              hb.npath, sorted({method_name(b.a) for b in bad})))
+    # (b) stores in the tokenizer
+    o = Origins(f)
+    src_blocks = {s[0] for s in srcs}
+
+    def is_read(x):
+        return x.kind == "call" and x.at is not None and x.at[0] in src_blocks and x.owner is f
+    stores = []
+    for bb, t in f.calls():
+        if mname(t) == "Vec::push":
+            stores.append((f.loc(bb), o.operand(t["args"][1])))
+    for bi, blk in enumerate(f.blocks):
+        if blk["cleanup"]:
+            continue
+        for si, st in enumerate(blk["stmts"]):
+            if st["k"] == "assign" and st["rv"]["k"] == "agg" and st["rv"]["agg"] in ("adt", "array", "tuple"):
+                for op in st["rv"]["ops"]:
+                    stores.append((stmt_loc(f, bi, si), o.operand(op)))
+    seen = set()
+    for where, tree in stores:
+        if not any(is_read(x) for x in tree.walk()):
+            continue
+        bad = _non_identity(tree, is_read, lambda x: _is_local_call(prog, f, x))
+        key = tuple(sorted({method_name(b.a) for b in bad}))
+        n += 1
+        if bad and key in seen:
+            continue
+        seen.add(key)
+        ctx.check(not bad, "stored-verbatim" + ("" if not bad else ":" + ",".join(key)), where, "the stored text is the line that was read (copied only)",
+                  "the tokenizer stores the line after passing it through %s: the token no longer holds the text that was written" % list(key))
+    if n < 5:
+        ctx.bad("verbatim-floor", f.where(), "only %d line stores / sources analysed (5 confirmed by reading)" % n)
+
+
+def _is_local_call(prog, f, node):
+    """the call node refers to a function defined in the analysed crate (derived values: fence, language, title ..)"""
+    if node.at is None or node.owner is None:
+        return False
+    blk = node.owner.blocks[node.at[0]]
+    t = blk["term"]
+    return t["k"] == "call" and bool(t.get("resolved_local"))
+
+
 def r6_14(ctx):
     """title: whatever is appended to the pending title paragraph is committed to the line parser before the next token is read (a fence line is
     never a Line token, so a paragraph that is only committed when a later non-title line arrives is lost when the fence follows directly)"""
@@ -588,5 +684,6 @@ def run(ctx):
     ctx.run_rule("R6.12", "fence info string: configuration = from the first `{` on, language = what precedes it; no other split [E-TABLE of accepted forms]", r6_12, floor=3)
     ctx.run_rule("R6.13", "parser state hygiene: every Ok path of LineParser::end_testcase flushes the state or resets the parsed exit code (shared with C07 R7.6) [E-PATH must-pass]", c07.parser_state_rules, floor=2)
     ctx.run_rule("R6.14", "title: every line appended to the pending title paragraph is committed (set_testcase_title(join)) before the next token is read [E-PATH must-pass]", r6_14, floor=3)
+    ctx.run_rule("R6.15", "lines verbatim: the line source returns the Lines::next item itself and every token field / pushed tuple holds the read line copied only (no trim / cut / case change) (shared with C10 R10.11) [E-FLOW]", r6_15, floor=5)
     ctx.run_rule("R6.9", "closing-fence predicate is a prefix test against the opener's fence (equality would reject longer closing fences) [E-TABLE of accepted forms]", r6_9, floor=3)
     ctx.run_rule("R6.8", "read_file normalises CRLF through replace_crlf before parsing [E-FLOW]", r6_8, floor=1)
